@@ -42,6 +42,24 @@ CLAIMS = {
   design_ref="DESIGN.md 3 (C20)",
   note="Trusted: gocv, go/types, SMT solvers, modelled stdlib (slices/maps); exported functions not under contract are listed as unverified in the evidence, never counted.",
   technique=TECH),
+ "C04": dict(
+  category="other",
+  text=json.load(open(V+"/props/C04.json"))["explanation"],
+  design_ref="DESIGN.md 3 (C04)",
+  note="Trusted: gocv, go/types, SMT solvers; processQueue, tracer callbacks (MutationQueued) and logging are trusted frame contracts; unverified remainder listed in the evidence.",
+  technique=TECH),
+ "C06": dict(
+  category="other",
+  text=json.load(open(V+"/props/C06.json"))["explanation"],
+  design_ref="DESIGN.md 3 (C06)",
+  note="Trusted: gocv, go/types, SMT solvers; closeSafe modelled by the closed-channel ghost state; ctx.Err() opaque; maps.Equal modelled as domain-wise equality; precondition: the subscribed state list is duplicate-free.",
+  technique=TECH),
+ "C13": dict(
+  category="other",
+  text=json.load(open(V+"/props/C13.json"))["explanation"],
+  design_ref="DESIGN.md 3 (C13)",
+  note="Trusted: gocv, go/types, SMT solvers; closeSafe modelled by the closed-channel ghost state; Backoff() sampled once.",
+  technique=TECH),
  "C03": dict(
   category="other",
   text="Contracts on the real transition executor and entry points. Transition.emitEvents is verified (every path, handlers and tracers abstracted by frame contracts) against: the clocks and the active list are assigned only through setActiveStates/recoverFinalPhase (ghost counter 'applied'; frame clause); a Canceled result of a non-auto mutation without a handler fault on a live machine implies the target was never applied (canceled_noop); a check mutation (CanAdd/CanRemove) never applies and never prepends an auto mutation (check_pure); the target is applied at most once (single_apply). setActiveStates (C01) makes the application one step under the write lock. Entry points Add/Remove/Set/CanAdd/CanRemove are verified to return Canceled with no effect when the machine is disposing, backing off or (Exception aside) over the queue limit. statesToSet/setupAccepted/setupExitEnter carry the per-muta",
